@@ -208,6 +208,17 @@ func run(c *vf.Ctx) {
 				return
 			}
 			rec.Pre = twin.Dirty(cr, A, headTree, twin.PreOpts{Max: 7})
+			// unstaged deletions (rm from disk only) of tracked files: destinations / arguments that exist in the
+			// index but not in the worktree
+			if ps := headTree.Paths(); cr.Intn(2) == 0 {
+				for k := 0; k < 1+cr.Intn(2); k++ {
+					p := ps[cr.Intn(len(ps))]
+					if fi, err := os.Lstat(filepath.Join(A, filepath.FromSlash(p))); err == nil && !fi.IsDir() {
+						os.Remove(filepath.Join(A, filepath.FromSlash(p)))
+						rec.Pre = append(rec.Pre, twin.PreOp{Kind: "delete", Path: p})
+					}
+				}
+			}
 			rec.Ignore = cr.Intn(3) == 0
 			if rec.Ignore {
 				os.WriteFile(filepath.Join(A, ".gitignore"), []byte("*.log\nbuild/\n"), 0o644)
@@ -245,8 +256,32 @@ func run(c *vf.Ctx) {
 					trackedList = append(trackedList, p)
 				}
 				sort.Strings(trackedList)
+				// paths in the index whose file is missing (unstaged deletion), and paths of the start commit that are
+				// neither in the index nor on disk any more (deletion already staged)
+				var trackedDeleted, stagedDeleted, trackedOnDisk []string
+				for _, p := range trackedList {
+					if fi, err := os.Lstat(filepath.Join(A, filepath.FromSlash(p))); err != nil {
+						trackedDeleted = append(trackedDeleted, p)
+					} else if !fi.IsDir() {
+						trackedOnDisk = append(trackedOnDisk, p)
+					}
+				}
+				for _, p := range headTree.Paths() {
+					if _, err := os.Lstat(filepath.Join(A, filepath.FromSlash(p))); err != nil && !tracked[p] {
+						stagedDeleted = append(stagedDeleted, p)
+					}
+				}
 				op := opSpec{Kind: opKinds[cr.Intn(len(opKinds))]}
-				if n := len(rec.Ops); n > 0 && cr.Intn(5) < 2 {
+				forcedDest := ""
+				if x := cr.Intn(8); len(trackedOnDisk) > 0 {
+					switch {
+					case x == 0 && len(trackedDeleted) > 0:
+						op.Kind, forcedDest = "move", pick(cr, trackedDeleted)
+					case x == 1 && len(stagedDeleted) > 0:
+						op.Kind, forcedDest = "move", pick(cr, stagedDeleted)
+					}
+				}
+				if n := len(rec.Ops); n > 0 && forcedDest == "" && cr.Intn(5) < 2 {
 					if k := rec.Ops[n-1].Kind; strings.HasPrefix(k, "add") || strings.HasPrefix(k, "remove") || k == "move" {
 						op.Kind = "commit" // something is probably staged now
 					}
@@ -311,6 +346,12 @@ func run(c *vf.Ctx) {
 					default:
 						op.Arg2 = pick(cr, files) // existing destination: both must refuse
 					}
+					switch {
+					case forcedDest != "": // onto a tracked path whose file is gone (deletion unstaged or staged)
+						op.Arg, op.Arg2 = pick(cr, trackedOnDisk), forcedDest
+					case cr.Intn(6) == 0: // an untracked path in a directory that does not exist yet
+						op.Arg2 = "mvnew/sub/" + filepath.Base(op.Arg)
+					}
 				}
 				if op.Arg == "" && (strings.HasPrefix(op.Kind, "add-") && op.Kind != "add-all" || strings.HasPrefix(op.Kind, "remove") || op.Kind == "move") {
 					continue
@@ -329,7 +370,16 @@ func run(c *vf.Ctx) {
 						}
 					}
 					if op.Kind == "move" {
-						op.ArgKind += "->" + pathKind(A, tracked, ignored, op.Arg2)
+						dk := pathKind(A, tracked, ignored, op.Arg2)
+						if _, inHead := headTree[op.Arg2]; dk == "absent" && inHead {
+							dk = "staged-deleted"
+						} else if dk == "absent" && strings.HasPrefix(op.Arg2, "mvnew/") {
+							dk = "absent-in-new-dir"
+						}
+						op.ArgKind += "->" + dk
+						if dk == "tracked-deleted" || dk == "staged-deleted" {
+							c.Count("moves_onto_tracked_path_missing_on_disk", 1)
+						}
 					}
 				}
 				if op.Kind == "move" && strings.Contains(strings.SplitN(op.ArgKind, "->", 2)[0], "dir") {
@@ -338,6 +388,22 @@ func run(c *vf.Ctx) {
 				rec.Ops = append(rec.Ops, op)
 				rec.Step = len(rec.Ops) - 1
 				kindsSeq = append(kindsSeq, op.Kind+"("+op.ArgKind+")")
+				destDirMissing := false
+				if op.Kind == "move" {
+					if d := filepath.Dir(filepath.FromSlash(op.Arg2)); d != "." {
+						if _, err := os.Lstat(filepath.Join(A, d)); err != nil {
+							if cr.Intn(2) == 0 { // create the destination directory in both twins: git mv then proceeds as well
+								os.MkdirAll(filepath.Join(A, d), 0o755)
+								os.MkdirAll(filepath.Join(B, d), 0o755)
+								op.ArgKind += "(dir-precreated)"
+							} else {
+								destDirMissing = true
+								op.ArgKind += "(dir-missing)"
+							}
+							rec.Ops[len(rec.Ops)-1] = op
+						}
+					}
+				}
 				beforeA, beforeB := obs.Worktree(A), obs.Worktree(B)
 				ignoredBefore := map[string]bool{}
 				for p := range beforeA {
@@ -511,6 +577,9 @@ func run(c *vf.Ctx) {
 							key = op.Kind + ":gogit-fails-where-git-succeeds:" + errClass(rec.GoErr)
 						case "git-refuses":
 							key += ":git-refuses-gogit-proceeds"
+							if op.Kind == "move" && destDirMissing && rec.GoErr == "" && strings.Contains(rec.GitErr, "No such file or directory") {
+								key = "move:destination-directory-missing:git-refuses-gogit-creates-it"
+							}
 						}
 						if seen[key] {
 							continue
@@ -545,6 +614,7 @@ func run(c *vf.Ctx) {
 	c.Floor("operation steps compared", c.Counter("steps_compared"), c.N(70, 700))
 	c.Floor("operation kinds", c.SeenCount("op_kinds"), len(opKinds))
 	c.Floor("operation x argument kinds", c.SeenCount("arg_kinds"), c.N(14, 24))
+	c.Floor("moves whose destination is a tracked or formerly tracked path missing on disk", c.Counter("moves_onto_tracked_path_missing_on_disk"), c.N(5, 40))
 	c.Floor("commits whose tree was compared with git write-tree", c.Counter("commit_trees_confirmed_by_write_tree"), c.N(4, 40))
 	c.Assume("equivalences: Add(path|dir)=git add -- p; AddWithOptions{All}=git add -A; AddGlob(g)=git add -- <filepath.Glob expansion of g over the worktree, .git excluded> (shell-style expansion, directories recursively); Remove=git rm -f [-r]; RemoveGlob(g)=git rm -f -- g (default pathspec: * crosses /, as go-git's index matcher does); Move=git mv; Clean{}=git clean -f; Clean{Dir}=git clean -f -d; Commit{All}=git commit [-a] with identical author/committer/date/message")
 	c.Assume("explicit Add of an ignored file is not generated (git add refuses without -f, go-git documents adding it: no equivalent command); Move of directories is documented as unsupported and not generated; .git/info/exclude is not used (C27 finding)")
@@ -588,6 +658,18 @@ func parseIdx(lines []string) map[string]string {
 func diffIndex(op opSpec, ia, ib []string, before fsguard.Snapshot, rec caseRec, ignored func(string) bool) []failure {
 	var fails []failure
 	ma, mb := parseIdx(ia), parseIdx(ib)
+	// ls-files -s lists are compared as multisets: the same (path, stage) listed twice is an index git cannot produce
+	seenB := map[string]int{}
+	for _, ln := range ib {
+		if tab := strings.IndexByte(ln, '\t'); tab > 0 {
+			if f := strings.Fields(ln[:tab]); len(f) == 3 {
+				k := ln[tab+1:] + "#" + f[2]
+				if seenB[k]++; seenB[k] == 2 {
+					fails = append(fails, failure{op.Kind + ":index-duplicate-entry:" + strings.SplitN(op.ArgKind+"->", "->", 3)[1], fmt.Sprintf("go-git's index lists %s twice (git's index: %d entries, go-git's: %d)", k, len(ia), len(ib))})
+				}
+			}
+		}
+	}
 	feat := func(ps string) string {
 		p := ps[:strings.LastIndexByte(ps, '#')]
 		k := "none"
